@@ -139,7 +139,7 @@ def _labels(ctx, r, p, q, z):
 
 
 # ------------------------------------------------------------------ clause 1 + bounds
-@subcheck(PROP, "norm_load_closed_form", strategy=_pairs, quick=2400, thorough=80000,
+@subcheck(PROP, "norm_load_closed_form", strategy=_pairs, quick=1600, thorough=60000,
           doc="pf_norm_load == Phi(z) relative to min(P,1-P) (RTOL 1e-3 + 16 eps); result in [0,1]")
 def norm_load_closed_form(case, ctx):
     sm, sS, sL = case["strength_median"], case["strength_std"], case["load_std"]
@@ -166,11 +166,11 @@ def norm_load_closed_form(case, ctx):
 @st.composite
 def _vanishing(draw, tier):
     return {"strength_median": draw(_lg(1.0, 1e4)), "strength_std": draw(_lg(1e-4, 2.0)), "z": draw(_z),
-            "k": sorted(draw(st.lists(st.sampled_from([1, 2, 3, 4, 6, 8, 12, 16, 24, 32, 40]), min_size=2, max_size=4, unique=True))),
+            "k": sorted(draw(st.lists(st.sampled_from([1, 2, 3, 4, 6, 8, 12, 16, 24, 32, 40]), min_size=2, max_size=3, unique=True))),
             "absolute_tiny": draw(st.booleans())}
 
 
-@subcheck(PROP, "vanishing_load_scatter", strategy=_vanishing, quick=640, thorough=20000,
+@subcheck(PROP, "vanishing_load_scatter", strategy=_vanishing, quick=480, thorough=16000,
           doc="pf_simple_load == Phi((lg L - lg S)/s_S); pf_norm_load(s_L = s_S 10^-k) -> pf_simple_load within the analytic gap + tolerance")
 def vanishing_load_scatter(case, ctx):
     sm, sS = case["strength_median"], case["strength_std"]
@@ -218,7 +218,7 @@ def _mono(draw, tier):
     return c
 
 
-@subcheck(PROP, "monotone", strategy=_mono, quick=800, thorough=25000,
+@subcheck(PROP, "monotone", strategy=_mono, quick=480, thorough=16000,
           doc="P_f does not decrease with the load median, does not increase with the strength median (within the tolerance), "
               "and strictly changes when the exact values differ by more than twice the tolerance")
 def monotone(case, ctx):
@@ -296,7 +296,7 @@ def _second_derivative_max(a, b, muL, sL, muS, sS):
     return float(np.max(np.abs(f2)))
 
 
-@subcheck(PROP, "arbitrary_load_converges", strategy=_arbitrary, quick=480, thorough=12000,
+@subcheck(PROP, "arbitrary_load_converges", strategy=_arbitrary, quick=320, thorough=10000,
           doc="pf_arbitrary_load on a sampled log-normal density (n, 4n, 16n points, non-uniform spacing): |error| <= rigorous "
               "trapezoid bound sum(h^3)/12 max|f''| + truncated mass, which falls like 1/n^2")
 def arbitrary_load_converges(case, ctx):
